@@ -18,15 +18,16 @@ REQUIRED_CLASSES = {t: ["goal:R=-inf", "goal:R=-1", "goal:R=0", "goal:R>1", "goa
                         "cycle:0<R<1", "cycle:on_R=0", "cycle:on_R=-1", "cycle:on_R=-inf", "cycle:on_R12", "diagram:fkm_goodman", "fkm_goodman:M2=0<M", "fkm_goodman:M2=M", "diagram:from_dict_rows_rotated", "cycle:upper=-0.0",
                         "diagram:five_segment", "five_segment:M4!=0", "matrix:from_to", "matrix:range_mean",
                         "matrix:extra_level", "matrix:counts_integer", "matrix:counts_float", "matrix:class_sums_beyond_count_dtype",
-                        "matrix:rows_in_arbitrary_order"]
+                        "matrix:rows_in_arbitrary_order", "goal:R=+inf", "cycle:amplitude<<|mean|"]
                     for t in ("quick", "thorough")}
 REQUIRED_MONITORS = ["fkm_goodman==iso_damage_oracle", "path_independent:T(R2)oT(R1)==T(R2)", "idempotent", "fixed_point_at_goal",
                      "continuous_across_sector_borders", "non_decreasing_in_amplitude", "interfaces_agree",
-                     "matrix_conserves_cycles", "matrix_classes==plain_function_on_class_mids"]
+                     "matrix_conserves_cycles", "matrix_classes==plain_function_on_class_mids", "goal_R=+inf==goal_R=-inf"]
 RULE = ("seeded cycles (amplitude > 0, any mean; also exactly on the rays R = -1, 0, R12, R23), FKM-Goodman (0 <= M2 <= M < 1) and "
         "five-segment parameter sets (incl. M4 != 0), targets R in {-inf, -1, 0, 0.1..0.9, < -1, > 1}; the real functions and "
         "accessors are compared with a geometric iso-damage oracle (pv/ref/haigh.py) and with each other; rainflow matrices "
         "(from/to and range/mean layout, optional extra index level) are transformed and their cycle totals compared. "
+        "Widened during the build: R = -inf cycles, upper load -0.0, rotated from_dict rows, matrix counts in seven dtypes (class sums beyond a narrow dtype's range), matrix rows in arbitrary order, every range class compared with the plain function on the class mids. "
         "Cases whose exact iso-damage amplitude leaves a > 0 are outside the quantifier and counted. Non-trivial: the cycle "
         "crosses at least one sector border on its way; distinct = distinct case.")
 ASSUMPTIONS = ["geometric oracle: piecewise linear iso-damage line with slope -M_i in the sector between two R rays",
@@ -209,6 +210,31 @@ def run_case(case, ctx):
         # judged since the unbounded-segment fix (30361b0): the five-segment correction follows the same iso-damage lines
         ctx.check("five_segment==iso_damage_oracle", _close(g1, o1) and _close(g2, o2), observed={"R1": g1, "R2": g2},
                   expected={"R1": o1, "R2": o2}, tags=sorted(set(mech(R1) + mech(R2))), detail={"amp": amp, "mean": mean})
+    # R = +inf names the same load state as R = -inf (upper load -0.0 instead of 0.0): the same target
+    ctx.tag("goal:R=+inf")
+    gp, gm = plain(amp, mean, math.inf), plain(amp, mean, -math.inf)
+    tp, tm = hd.transform(pd.DataFrame({"range": 2 * amp, "mean": mean}), math.inf), hd.transform(pd.DataFrame({"range": 2 * amp, "mean": mean}), -math.inf)
+    same = bool(np.all((gp == gm) | (np.isnan(gp) & np.isnan(gm)))) and bool(np.all((tp["range"].to_numpy() == tm["range"].to_numpy()) | (
+        np.isnan(tp["range"].to_numpy()) & np.isnan(tm["range"].to_numpy()))))
+    ctx.check("goal_R=+inf==goal_R=-inf", same, observed={"plain": gp, "transform": tp["range"].to_numpy() / 2}, expected={"plain": gm, "transform": tm["range"].to_numpy() / 2},
+              detail={"amp": amp, "mean": mean})
+    # cycles whose amplitude is tiny against their mean (R within 1e-5 .. 1e-11 of 1): judged strictly relatively
+    ctx.tag("cycle:amplitude<<|mean|")
+    ms_ = np.round(rng.uniform(50, 500, 6), 1) * rng.choice([-1.0, 1.0], 6)
+    as_ = np.abs(ms_) * 10.0 ** (-rng.uniform(5, 11, 6))
+    os_ = [H.transform(a, m, sectors, R2) for a, m in zip(as_, ms_)]
+    ks_ = [i for i, o in enumerate(os_) if o is not None and o > 0]
+    if ks_:
+        gs_ = plain(as_[ks_], ms_[ks_], R2)
+        es_ = np.array([os_[i] for i in ks_])
+        rel = np.abs(gs_ - es_) / es_
+        # the library stores a cycle as (amplitude, R) and rebuilds the mean as a (1+R)/(1-R): 1 - R = 2a/(m+a) carries a
+        # relative rounding error of eps |m| / (2 a) - the recorded finding; anything beyond that bound is a new violation
+        bound = 8 * 2.2e-16 * np.abs(ms_[ks_]) / as_[ks_]
+        ok_ = bool(np.all(rel <= 1e-9))
+        tags_ = ["c12_mean_rebuilt_from_R_cancellation"] if (not ok_ and bool(np.all(rel <= np.maximum(1e-9, bound)))) else []
+        ctx.check("fkm_goodman==iso_damage_oracle" if case["kind"] == "goodman" else "five_segment==iso_damage_oracle", ok_, observed=gs_, expected=es_,
+                  tags=tags_ + sorted(set(mech(R2))), detail={"amp": as_[ks_], "mean": ms_[ks_], "relative_error": rel, "R_goal": R2, "class": "amplitude<<|mean|"})
     # path independence, idempotence, fixed point through the DataFrame interface
     df = pd.DataFrame({"range": 2 * amp, "mean": mean})
     t1 = hd.transform(df, R1)
